@@ -9,7 +9,8 @@ spec/rdma/RDMA.tla          design spec: N engines, five ports each, network/L1/
 spec/rdma/MC_RDMA*.cfg      exhaustive model checking of the routing / payload / originator / drain invariants (+ liveness)
 spec/rdma/RDMAScen.tla      behaviours -> environment scenarios replayed on real rdma.Comp instances
 spec/rdma/RDMATrace.tla     raw port-event traces of the real components checked against RDMA
-harness/cmd/c18             driver: 1..4 real rdma.Comp back to back, scripted L1/L2/peer/control sides
+harness/cmd/c18             driver: 1..4 real rdma.Comp back to back, scripted L1/L2/peer/control sides;
+                            -platform: the engines inside the real timing platforms, with the address tables the builders gave them
 
 Part 2 (multi-GPU result independence at system level) is added by defining
 run_system(ctx) below; run() calls it when present.
@@ -32,6 +33,19 @@ RULE = ('cases = environment scenarios (TLC -simulate behaviours of RDMAScen + s
 TSPEC = {'dirs': ['rdma'], 'module': 'RDMATrace.tla', 'cfg': 'RDMATrace.cfg', 'timeout': 1800}
 INVS = ['ExactlyOnceRouting', 'OwnerIsAddressRangeOwner', 'PayloadPreserved', 'RspToOriginator',
         'DrainAckOnlyWhenEmpty', 'NoForwardWhilePaused', 'DrainedNoOwnTraffic', 'AllDrainedQuiet']
+
+
+
+def _signature(bad, at, v):
+    """Which event the verdict is about: for an invariant violation the state after event at-1,
+    for an unexplainable line the line itself."""
+    i = at - 2 if v['violated'] else at - 1
+    ev = bad[max(0, min(i, len(bad) - 1))] if bad else {}
+    m = ev.get('m', {}) if isinstance(ev.get('m'), dict) else {}
+    return {'on': '%s@%s' % (ev.get('e'), ev.get('k', '-')), 'msg': m.get('t', ev.get('msg', '-') if ev.get('e') == 'Panic' else '-')}
+
+
+TSPEC['signature'] = _signature
 
 # system-level part (multi-GPU result independence): defined later by the coordinator as run_system(ctx)
 run_system = None
@@ -210,7 +224,7 @@ def selftest(ctx, tspec, parts, corrs, required):
         else:
             if name in required:
                 raise vlib.Infra('binding self-test: corruption %r applies to none of %d traces' % (name, len(parts)))
-    with ThreadPoolExecutor(max_workers=4) as ex:     # one JVM start each; verdicts do not depend on the order
+    with ThreadPoolExecutor(max_workers=6) as ex:     # one JVM start each; verdicts do not depend on the order
         verdicts = list(ex.map(lambda j: ctx.validate_trace(tspec['dirs'], tspec['module'], tspec['cfg'], j[1]), jobs))
     results = []
     for (name, _), v in zip(jobs, verdicts):
@@ -305,7 +319,6 @@ def run_rdma(ctx):
         # no longer steers the component (on a broken engine the trace validation below decides first)
         ctx.notes.append('scenario steps skipped: %d of %d' % (skipped, done + skipped))
     ctx.sample({'scenario_from_TLC_behaviour': scen[0]['steps'][:14]})
-    common.validate_and_triage(ctx, TSPEC, t1, {'cmd': 'c18', 'scenarios': scen})
 
     # 3. code -> spec: seeded adversarial environments, 1..4 engines, far beyond the model's bounds
     nrand = 500 if thorough else 70
@@ -313,9 +326,29 @@ def run_rdma(ctx):
     args = ['-random', nrand, '-reqs', 40 if thorough else 24, '-seed', ctx.seed, '-out', t2]
     stats2 = drive(ctx, drv, args, 'random')
     ctx.log('random environments: %s' % stats2)
-    common.validate_and_triage(ctx, TSPEC, t2, {'cmd': 'c18', 'args': args[:-1]})
 
-    parts = vlib.split_traces(t1) + vlib.split_traces(t2)
+    # 3b. the engines as configured by the repository's platform builders (timingconfig + r9nano / mi300a), in situ:
+    #     accesses from every GPU to the boundaries and the inside of every other GPU's memory range,
+    #     through the real RemoteRDMAAddressTable and the real local module finder, to the owner's L2 and back
+    plats = 'r9nano:2,r9nano:4,mi300a:2,mi300a:4' if thorough else 'r9nano:2,r9nano:4,mi300a:2'
+    t3 = os.path.join(ctx.scratch, 'trace_platform.ndjson')
+    args3 = ['-platform', plats, '-seed', ctx.seed, '-out', t3]
+    stats3 = drive(ctx, drv, args3, 'platform')
+    ctx.log('engines of the real platforms (%s): %s' % (plats, stats3))
+    if stats3.get('steps_skipped') and not stats3.get('panics'):
+        ctx.notes.append('platform probe: %d scripted steps did not apply' % stats3['steps_skipped'])
+    # one TLC start validates all recorded traces (concatenated; every trace starts with its Reset line)
+    tall = os.path.join(ctx.scratch, 'trace_all.ndjson')
+    with open(tall, 'w') as f:
+        for t in (t1, t2, t3):
+            f.write(open(t).read())
+    n_ok = common.validate_and_triage(ctx, TSPEC, tall, {'cmd': 'c18', 'runs': [{'scenarios': scen}, {'args': args[:-1]},
+                                                                               {'args': args3[:-1]}]})
+    ctx.log('trace validation: %d traces accepted' % n_ok)
+    ctx.cov['platform_configurations'] = plats.split(',')
+    stats2 = {k: stats2.get(k, 0) + stats3.get(k, 0) for k in set(stats2) | set(stats3)}
+
+    parts = vlib.split_traces(t1) + vlib.split_traces(t2) + vlib.split_traces(t3)
     distinct = {json.dumps([{k: v for k, v in r.items() if k != 'seq'} for r in recs], sort_keys=True) for _, recs in parts}
     nt = sum(1 for _, recs in parts if nontrivial(recs))
     ctx.sample({'trace_excerpt': [{k: v for k, v in r.items() if k != 'seq'} for r in parts[-1][1][:8]]})
@@ -358,14 +391,19 @@ def replay(ctx, path):
     if d.get('cmd') != 'c18' and run_system is not None and 'replay_system' in globals():
         return globals()['replay_system'](ctx, path)
     drv = ctx.go_build('c18')
+    runs = d.get('runs', [d])
     t = os.path.join(ctx.scratch, 'replay.ndjson')
-    if 'scenarios' in d:
-        sfile = os.path.join(ctx.scratch, 'scen.json')
-        json.dump(d['scenarios'], open(sfile, 'w'))
-        args = ['-scen', sfile, '-out', t]
-    else:
-        args = d['args'] + [t]
-    drive(ctx, drv, args, 'replay')
+    with open(t, 'w') as f:
+        for i, r in enumerate(runs):
+            ti = os.path.join(ctx.scratch, 'replay_%d.ndjson' % i)
+            if 'scenarios' in r:
+                sfile = os.path.join(ctx.scratch, 'scen_%d.json' % i)
+                json.dump(r['scenarios'], open(sfile, 'w'))
+                args = ['-scen', sfile, '-out', ti]
+            else:
+                args = r['args'] + [ti]
+            drive(ctx, drv, args, 'replay')
+            f.write(open(ti).read())
     before = len(ctx.violations)
     common.validate_and_triage(ctx, TSPEC, t, d)
     return 1 if len(ctx.violations) > before else 0
